@@ -134,4 +134,28 @@ theorem codeRun_sim (isDNS : Opaque "net.Addr" → Bool) (timeout : Nat) :
 theorem R_init (timeout : Nat) : R timeout { Code.natconn.zero with defaultTimeout := (timeout : Int) } init := by
   simp [R, Code.natconn.zero, init, lastSet]
 
+/-- **natconn.WriteTo**: `onWrite` for the destination first, then the write on the wrapped socket — and nothing else -/
+theorem writeTo_tie (w : Opaque "net.PacketConn" → List UInt8 → Opaque "net.Addr" → Int × Option String)
+    (isDNS : Opaque "net.Addr" → Bool) (now : Int) (c : Code.natconn) (buf : List UInt8) (dst : Opaque "net.Addr") :
+    Code.natconn.WriteTo w isDNS now c buf dst =
+      (Code.natconn.onWrite isDNS now c dst).map (fun c' => (c', w c'.PacketConn buf dst)) := by
+  unfold Code.natconn.WriteTo
+  simp only []
+  cases h : Code.natconn.onWrite isDNS now c dst <;> simp [h]
+
+/-- **natconn.ReadFrom**: the read on the wrapped socket first; `onRead` for the source exactly when the read succeeded;
+    the socket's answer is handed through unchanged -/
+theorem readFrom_tie (rd : Opaque "net.PacketConn" → List UInt8 → Int × Opaque "net.Addr" × Option String)
+    (isDNS : Opaque "net.Addr" → Bool) (now : Int) (c : Code.natconn) (buf : List UInt8) :
+    Code.natconn.ReadFrom rd isDNS now c buf =
+      if (rd c.PacketConn buf).2.2 = none then
+        (Code.natconn.onRead isDNS now c (rd c.PacketConn buf).2.1).map (fun c' => (c', rd c.PacketConn buf))
+      else some (c, rd c.PacketConn buf) := by
+  unfold Code.natconn.ReadFrom
+  by_cases h : (rd c.PacketConn buf).2.2 = none
+  · simp only [h, decide_true, if_true]
+    cases h2 : Code.natconn.onRead isDNS now c (rd c.PacketConn buf).2.1 <;> simp [h2]
+    rw [← h]
+  · simp [h]
+
 end OutlineModel.Tie.NatConn
